@@ -151,6 +151,23 @@ func (x *Exec) vcIntrinsic(fr *Frame, name string, args []Value, pos token.Pos) 
 		if !ok || fv.Fn == nil {
 			unsup("vc.%s needs a function literal", name)
 		}
+		if lo.IsConst() && hi.IsConst() && lo.Val.IsInt64() && hi.Val.IsInt64() && hi.Val.Int64()-lo.Val.Int64() <= 64 {
+			var cs []*Term
+			for i := lo.Val.Int64(); i < hi.Val.Int64(); i++ {
+				saved := x.st
+				x.st = saved.fork(saved.pc)
+				r := x.callFunction(fv.Fn, []Value{Scalar{bv64(i)}}, fv.Bind, true)
+				x.st = saved
+				if r == nil {
+					unsup("quantifier body does not return")
+				}
+				cs = append(cs, term(r))
+			}
+			if name == "Forall" {
+				return Scalar{And(cs...)}
+			}
+			return Scalar{Or(cs...)}
+		}
 		b := FreshBound("q", BV(64))
 		saved := x.st
 		sub := saved.fork(saved.pc)
@@ -406,6 +423,21 @@ func init() {
 		}
 		blk := IfaceV{Nil: False(), Tag: "aesblock", V: x.sliceToArrayValue(k, 16)}
 		return TupleV{E: []Value{blk, IfaceV{Nil: True(), Tag: "error"}}}
+	}
+	ifaceModels["aesblock.BlockSize"] = func(x *Exec, fr *Frame, iv IfaceV, args []Value, pos token.Pos) Value {
+		return Scalar{bv64(16)}
+	}
+	// Block.Encrypt(dst, src): dst[0..16) = AES(key, src[0..16)); panics on short operands
+	ifaceModels["aesblock.Encrypt"] = func(x *Exec, fr *Frame, iv IfaceV, args []Value, pos token.Pos) Value {
+		dst, src := asSlice(args[0]), asSlice(args[1])
+		if !(fr != nil && fr.ghost) {
+			x.oblige("S", "panic", And(BvUle(bv64(16), src.Len), BvUle(bv64(16), dst.Len)), pos)
+		}
+		out := x.callSpec("nasalg.AES", iv.V, x.sliceToArrayValue(src, 16)).(ArrayV)
+		for i := 0; i < 16; i++ {
+			x.store(PtrV{Obj: dst.Obj, Path: []PathElem{{Field: -1, Idx: BvAdd(dst.Off, bv64(int64(i)))}}, Nil: False()}, out.E[i], True())
+		}
+		return nil
 	}
 	// crypto/cipher.NewCTR(block, iv): a stream positioned at octet 0.
 	extModels["crypto/cipher.NewCTR"] = func(x *Exec, fr *Frame, args []Value, pos token.Pos) Value {
